@@ -585,6 +585,48 @@ def fn_alias(case):
         shutil.rmtree(tdir, ignore_errors=True)
 
 
+def fn_lookalike(case):
+    """the source directory is a SIBLING of the target directory whose name merely starts with the target's
+    name (widget-src beside widget; lib/widget-1.0-dist beside lib/widget-1.0): an ordinary copy."""
+    from htmltools import HTMLDependency, HTMLDocument, Tag
+    variant, files, all_files, caller = case
+    viols = []
+    tdir = os.path.realpath(tempfile.mkdtemp(prefix="c", dir=os.path.join(_FX["root"], "t")))
+    try:
+        if variant == "name-src":
+            src, libdir, incv, target = os.path.join(tdir, "widget-src"), None, False, os.path.join(tdir, "widget")
+        elif variant == "version-dist":
+            src, libdir, incv, target = os.path.join(tdir, "lib", "widget-1.0-dist"), "lib", True, os.path.join(tdir, "lib", "widget-1.0")
+        elif variant == "longer-name":
+            src, libdir, incv, target = os.path.join(tdir, "lib", "widget2"), "lib", False, os.path.join(tdir, "lib", "widget")
+        else:   # the target's name starts with the source's name
+            src, libdir, incv, target = os.path.join(tdir, "lib", "widget"), "lib", True, os.path.join(tdir, "lib", "widget-1.0")
+        populate(src)
+        before = listing(src)
+        dep = HTMLDependency("widget", "1.0", source={"subdir": src}, script=[{"src": f} for f in files], all_files=all_files)
+        file = os.path.join(tdir, "index.html")
+        try:
+            if caller == "copy_to":
+                dep.copy_to(os.path.join(tdir, libdir) if libdir else tdir, include_version=incv)
+            else:
+                HTMLDocument(Tag("p", "x"), dep).save_html(file, libdir=libdir, include_version=incv)
+        except Exception as e:
+            viols.append((f"lookalike:{variant}:raises", f"copying from a sibling directory raised {type(e).__name__}: {e}", {}))
+            return (True, "raised", viols, 1)
+        if listing(src) != before:
+            viols.append((f"lookalike:{variant}:source-changed", "the source directory changed", {}))
+        for f in files:
+            pth = os.path.join(target, f)
+            if not os.path.isfile(pth) or open(pth, "rb").read() != open(os.path.join(src, f), "rb").read():
+                viols.append((f"lookalike:{variant}:not-copied", f"{f!r} was not copied byte-identically to {os.path.relpath(target, tdir)}", {}))
+                break
+        if all_files and listing(target) != before:
+            viols.append((f"lookalike:{variant}:all_files", "target is not a copy of the whole source directory", {}))
+        return (True, variant, viols, 1)
+    finally:
+        shutil.rmtree(tdir, ignore_errors=True)
+
+
 def fn_pkglayout(case):
     """package sources in unusual layouts: the package's __init__.py is a symbolic link to a file kept
     elsewhere (a 'link farm'); the dependency's files are the ones in the package directory."""
@@ -707,6 +749,11 @@ def plan(tier):
                   "written must be the subclass's own href + percent-encoded path and name the copied files"),
         dict(kind="space", name="target-is-the-source-under-another-spelling", space=alias, fn=fn_alias, serial=True,
              note="symlinked libdir / output dir / source path, package source with '..', symlinked sys.path entry"),
+        dict(kind="space", name="source-is-a-lookalike-sibling-of-the-target", fn=fn_lookalike,
+             space=Prod(Const(["name-src", "version-dist", "longer-name", "shorter-name"]),
+                        Const([[FILES[0]], [FILES[0], FILES[-1]]]), Const([False, True]), Const(["document", "copy_to"])),
+             note="the source directory's path has the target directory's path as a string prefix (or the reverse) without being "
+                  "inside it: copied like any other"),
         dict(kind="space", name="package-layouts", space=pkglay, fn=fn_pkglayout, serial=True,
              note="package whose __init__.py is a symbolic link to a file kept elsewhere (with / without a stale "
                   "same-named file next to the link target)"),
